@@ -43,6 +43,7 @@ def fresh_ops(mesh, fixed, fix_psi, A):
     from tdgl.finite_volume.operators import MeshOperators
     from tdgl.solver.options import SparseSolver
     ops = MeshOperators(mesh, SparseSolver.SUPERLU, fixed_sites=fixed, fix_psi=fix_psi)
+    meshes.build_like_solver(ops)          # the solver's life cycle: all operators built first, then the link variables set / refreshed
     ops.set_link_exponents(A)
     return ops
 
@@ -136,7 +137,7 @@ def cmp_model(rep, out, ops, case):
     return bool(bad or bad2)
 
 
-def solver_case(rep, rng, dev, kind, screening, ci):
+def solver_case(rep, rng, dev, kind, screening, ci, mode=None):
     """Real run; after every update compare the operators in use with a rebuild."""
     xi = dev.coherence_length.magnitude
     if kind == "slow_ramp":
@@ -178,10 +179,47 @@ def solver_case(rep, rng, dev, kind, screening, ci):
             if not np.array_equal(cur, ops.link_exponents):
                 stale.append((state["step"], float(np.max(np.abs(cur - ops.link_exponents)))))
 
+    scr_stale = []
+    track = {}
+
+    def before(solver, state, kw):
+        track["Aind"] = np.array(kw["induced_vector_potential"], copy=True)
+        if "wrapped" not in track:
+            # with screening the operators are refreshed inside the step, once per self-consistency iteration: every Euler
+            # update must see operators built for (applied + induced potential of the previous iteration)
+            track["wrapped"] = True
+            orig_euler, orig_giv = solver.adaptive_euler_step, solver.get_induced_vector_potential
+
+            def euler(step, *a, **k):
+                want = np.asarray(solver.current_A_applied) + track["Aind"]
+                ops = solver.operators
+                if not np.array_equal(np.asarray(ops.link_exponents), want):
+                    scr_stale.append((int(step), track.get("it", 0), float(np.max(np.abs(np.asarray(ops.link_exponents) - want)))))
+                track["it"] = track.get("it", 0) + 1
+                return orig_euler(step, *a, **k)
+
+            def giv(*a, **k):
+                A_, err = orig_giv(*a, **k)
+                track["Aind"] = np.array(A_, copy=True)
+                return A_, err
+
+            if screening:
+                solver.adaptive_euler_step, solver.get_induced_vector_potential = euler, giv
+        track["it"] = 0
+
     with tempfile.TemporaryDirectory(prefix="pyt_c10_") as td:
+        extra = {}
+        seed_sol = None
+        if mode == "skip":
+            extra["skip_time"] = 0.05          # screening together with thermalisation: the recorded stage restarts at step 0
+        if mode == "seed":
+            # screening together with a seed solution that carries a non-zero induced potential
+            sopts = runs.make_options(td, solve_time=0.08, dt_init=1e-2, dt_max=1e-2, adaptive=False, save_every=50,
+                                      include_screening=True, screening_tolerance=1e-2, output_file=td + "/seed.h5")
+            seed_sol, _ = runs.traced_solve(dev, sopts, A=0.4, currents={"source": 0.5, "drain": -0.5} if len(dev.terminals) >= 2 else None)
         opts = runs.make_options(td, solve_time=1.2 if not screening else 0.3, dt_init=1e-2, dt_max=1e-2,
                                  adaptive=False, save_every=50, include_screening=screening,
-                                 screening_tolerance=1e-2)
+                                 screening_tolerance=1e-2, **extra)
         cur = {"source": 0.5, "drain": -0.5} if len(dev.terminals) >= 2 else None
         # every other unscreened run solves the same solver object a second time (shorter): the operators must follow the
         # potential from the first step of the second run too
@@ -190,8 +228,14 @@ def solver_case(rep, rng, dev, kind, screening, ci):
         def between(solver, k):
             solver.options.solve_time = 0.45
 
-        runs.traced_solve(dev, opts, A=A, currents=cur, on_step=on_step, resolve=again, between=between)
-    case = {"run": ci, "drive": kind, "screening": screening, "steps": len(cur_ids) or None, "solved_again": again}
+        runs.traced_solve(dev, opts, A=A, currents=cur, on_step=on_step, before_step=before, resolve=again, between=between,
+                          seed_solution=seed_sol)
+    case = {"run": ci, "drive": kind, "screening": screening, "steps": len(cur_ids) or None, "solved_again": again, "with": mode}
+    if scr_stale:
+        rep.violation("stale operators inside a screening step: an Euler update ran with link exponents that are not (applied + "
+                      "induced potential of the previous iteration)",
+                      {**case, "first": {"step": scr_stale[0][0], "iteration": scr_stale[0][1], "max_abs_diff": scr_stale[0][2]},
+                       "count": len(scr_stale)})
     if mism:
         rep.violation("operators partially updated: matrices differ from a rebuild for their own link exponents",
                       {**case, "first": mism[:3]})
@@ -236,11 +280,14 @@ def run(rep: common.Report, tier: str, seed: int, replay=None) -> int:
     dev = meshes.make_device(rng, holes=1, terminals=2, max_edge_length=0.9)
     plans = [("slow_ramp", False), ("fast_ramp", False), ("steps", False), ("switch_off", False), ("const", False), ("fast_ramp", True),
              ("tiny_ramp", False), ("tiny_on_large", False)]
+    # feature pairs: screening with thermalisation / with a seed solution carrying an induced potential (static and ramped field)
+    plans += [("const", True, "skip"), ("const", True, "seed"), ("fast_ramp", True, "seed")]
     if tier == "thorough":
-        plans += [("steps", True), ("slow_ramp", True)]
+        plans += [("steps", True), ("slow_ramp", True), ("steps", True, "skip")]
     trig = []
-    for ci, (kind, scr) in enumerate(plans):
-        cur_ids, held_ids, case = solver_case(rep, rng, dev, kind, scr, ci)
+    for ci, plan in enumerate(plans):
+        kind, scr = plan[:2]
+        cur_ids, held_ids, case = solver_case(rep, rng, dev, kind, scr, ci, mode=plan[2] if len(plan) > 2 else None)
         if cur_ids:
             trig.append((cur_ids, held_ids, case))
     if trig:
